@@ -50,8 +50,8 @@ def check_frame(frame: bytes, begin: bytes = BEGIN):
     if j < 0:
         return "BodyLength unterminated"
     digits = frame[i:j]
-    if not digits or not digits.isdigit():
-        return f"BodyLength not numeric: {digits!r}"
+    if not digits or not digits.isdigit() or len(digits) > 18:
+        return f"BodyLength not numeric: {digits[:40]!r}"
     blen = int(digits)
     body_start = j + 1
     if not frame.startswith(b"35=", body_start):
@@ -93,8 +93,8 @@ def consistency(frame: bytes):
         return "shape"
     if int(trailer[3:6]) != checksum(frame[:-7]):
         return "checksum"
-    if int(digits) != len(frame) - 7 - (j + 1):
-        return "bodylength"
+    if len(digits) > 18 or int(digits) != len(frame) - 7 - (j + 1):
+        return "bodylength"  # (more digits than any frame is long - beyond what int() converts, too)
     return None
 
 
@@ -119,8 +119,8 @@ def split_stream(data: bytes, begin: bytes = BEGIN):
                 return frames, f"offset {i}: BodyLength unterminated", data[i:]
             return frames, None, data[i:]
         digits = data[i + len(head) : j]
-        if not digits.isdigit():
-            return frames, f"offset {i}: BodyLength not numeric {digits!r}", data[i:]
+        if not digits.isdigit() or len(digits) > 18:
+            return frames, f"offset {i}: BodyLength not numeric {digits[:40]!r}", data[i:]
         end = j + 1 + int(digits) + 7
         if end > n:
             # maybe incomplete -- but a wrong BodyLength also lands here; look for
@@ -148,7 +148,7 @@ def scan_frames(data: bytes, begin: bytes = BEGIN):
         ok = False
         if j != -1:
             digits = data[i + len(head) : j]
-            if digits.isdigit():
+            if digits.isdigit() and len(digits) <= 18:
                 end = j + 1 + int(digits) + 7
                 if end <= len(data) and check_frame(data[i:end], begin) is None:
                     frames.append(data[i:end])
